@@ -76,9 +76,9 @@ fn k_c04_1_low_memo_never_shallow_verifies_later() {
     std::mem::forget(z);
 }
 
-//@ob id=K-MCA-2 kind=C props=C01,C03 fn=MemoHeader::maybe_changed_after_hot,MemoHeader::update_shallow,MemoHeader::mark_as_verified
+//@ob id=K-MCA-2 kind=C props=C01,C03,C11 fn=MemoHeader::maybe_changed_after_hot,MemoHeader::update_shallow,MemoHeader::mark_as_verified
 //@ pre: any monotone revision vector; memo: any durability, verified_at <= current, changed_at <= verified_at, any finality, no outputs; any query revision
-//@ post: answers on the hot path <=> shallow verification succeeds && the memo is final; then Unchanged <=> changed_at <= revision (both directions) and verified_at := current; otherwise None and the memo is untouched
+//@ post: answers on the hot path <=> shallow verification succeeds && the memo is final; then Unchanged <=> changed_at <= revision (both directions) and verified_at := current; an Unchanged answer carries the memo's stored accumulated-inputs flag **whichever way the shallow check succeeded** (verified this revision, or by durability); otherwise None and the memo is untouched
 #[cfg_attr(kani, kani::proof)]
 #[cfg_attr(kani, kani::unwind(5))]
 #[cfg_attr(salsa_verif_replay, test)]
@@ -91,6 +91,12 @@ fn k_mca_2_hot() {
     vk::assume(changed_at <= va);
     let vf: bool = vk::any();
     let h = header(va, d, changed_at, vf, empty_derived());
+    let acc: bool = vk::any();
+    h.revisions.accumulated_inputs.store(if acc {
+        crate::accumulator::accumulated_map::InputAccumulatedValues::Any
+    } else {
+        crate::accumulator::accumulated_map::InputAccumulatedValues::Empty
+    });
     let rev = vk::any_revision();
     let res = h.maybe_changed_after_hot(&z, vk::key(0, 1), rev);
     let shallow_ok = refs::ref_shallow(ref_revs(r), va.as_usize(), d.index() as u8);
@@ -103,6 +109,10 @@ fn k_mca_2_hot() {
             assert!(shallow_ok && vf);
             assert!(v.is_unchanged() == (changed_at <= rev));
             assert!(h.verified_at.load() == r[0]);
+            if let VerifyResult::Unchanged { accumulated } = v {
+                assert!(accumulated.is_any() == acc);
+                vcover!(va < r[0] && acc, "flag reported on the higher-durability path");
+            }
         }
     }
     assert!(h.revisions.changed_at == changed_at);
